@@ -15,20 +15,23 @@ enum { F_QUEUE_FULL };
 static const char *const fault_names[] = { "queue_full_claim_refused", NULL };
 enum { P_DEPTH1, P_DEPTH32, P_WRAPPED, P_SEND_REORDERED, P_RECEIVE_BLOCKED, P_SLACK, P_HELD_DELAYED,
        P_NON_POW2_SIZE, P_BOTH_ROUTES, P_EMPTY_TRUE, P_EMPTY_FALSE, P_FULL_THEN_RELEASE, P_LONG_HISTORY,
-       P_CLAIMS_OVER_256, P_BIG_MESSAGES, P_STORAGE_OVER_64K };
+       P_CLAIMS_OVER_256, P_BIG_MESSAGES, P_STORAGE_OVER_64K,
+       P_INIT_EXPRESSIONS, P_CLAIMS_OVER_65536 };
 static const char *const probe_names[] = {
 	"depth_1", "depth_32", "slot_index_wrapped", "send_out_of_claim_order",
 	"receive_blocked_by_unsent_oldest", "slack_bytes_present", "release_delayed",
 	"message_size_not_power_of_two", "both_construction_routes_in_lock_step",
 	"empty_reported_true", "empty_reported_false", "claim_succeeds_after_release_of_full_queue",
 	"history_of_900_to_2400_operations", "more_than_256_claims_on_one_queue",
-	"message_size_255_to_65535", "storage_larger_than_64KiB", NULL };
+	"message_size_255_to_65535", "storage_larger_than_64KiB",
+	"static_initialiser_given_expression_arguments", "more_than_65536_claims_on_one_queue", NULL };
 
 #define MAXDEPTH 32
 
 typedef struct {
 	messageq_t *mq;
 	uint8_t *store;
+	uint32_t lead;		/* bytes of the caller's pool in front of the queue's memory */
 } route_t;
 
 static route_t rt[2];
@@ -63,10 +66,140 @@ static bool payload_ok(const uint8_t *p, uint32_t st)
 
 static void check_slack(const char *after)
 {
-	for (int r = 0; r < nroutes; r++)
+	for (int r = 0; r < nroutes; r++) {
 		for (uint32_t i = depth * msg_len; i < base_len; i++)
 			if (rt[r].store[i] != (uint8_t)(0xc3 ^ i))
 				sim_fail(NULL, "SLACK_TOUCHED", "after %s: trailing byte %u of the caller's memory changed", after, i);
+		for (uint32_t i = 0; i < rt[r].lead; i++)
+			if (rt[r].store[(int)i - (int)rt[r].lead] != (uint8_t)(0x3c ^ i))
+				sim_fail(NULL, "OUTSIDE_TOUCHED", "after %s: byte %u of the pool in front of the queue's memory changed", after, i);
+	}
+}
+
+static bool quiet;		/* inside a long run of plain cycles: no per-operation events */
+static uint32_t next_stamp;
+#define EV(...) do { if (!quiet) sim_ev(__VA_ARGS__); } while (0)
+
+static void op_claim(bool always_send)
+{
+	void *res[2];
+	bool expect = n_claim - n_rel < depth;
+	uint32_t slot = n_claim % depth;
+	for (int r = 0; r < nroutes; r++)
+		res[r] = messageq_claim(rt[r].mq);
+	for (int r = 0; r < nroutes; r++) {
+		void *want = expect ? rt[r].store + slot * msg_len : NULL;
+		if (res[r] != want) {
+			if (!res[r])
+				sim_fail(NULL, "CLAIM:spurious_null", "claim returned NULL with %llu of %u buffers claimed and unreleased (route %d)",
+					 (unsigned long long)(n_claim - n_rel), depth, r);
+			if (!expect)
+				sim_fail(NULL, "CLAIM:overcommit", "claim returned offset %td although all %u buffers are claimed and unreleased (route %d)",
+					 (uint8_t *)res[r] - rt[r].store, depth, r);
+			sim_fail(NULL, "CLAIM:wrong_buffer", "claim %llu returned offset %td, expected slot %u at offset %u (depth %u, size %u, route %d)",
+				 (unsigned long long)n_claim, (uint8_t *)res[r] - rt[r].store, slot, slot * msg_len, depth, msg_len, r);
+		}
+	}
+	if (expect) {
+		if (was_full) {
+			sim_probe(P_FULL_THEN_RELEASE);
+			was_full = false;
+		}
+		if (n_claim >= depth)
+			sim_probe(P_WRAPPED);
+		if (n_claim == 257)
+			sim_probe(P_CLAIMS_OVER_256);
+		if (n_claim == 65537)
+			sim_probe(P_CLAIMS_OVER_65536);
+		sent[slot] = false;
+		stamp[slot] = next_stamp++;
+		for (int r = 0; r < nroutes; r++)
+			fill_payload(res[r], stamp[slot]);
+		n_claim++;
+		EV("claim", slot, 0, 0);
+		/* usually send at once; sometimes leave it pending for a reordered send */
+		if (always_send || sim_choose(4)) {
+			for (int r = 0; r < nroutes; r++)
+				messageq_send(rt[r].mq, res[r]);
+			sent[slot] = true;
+			EV("send", slot, 0, 0);
+		}
+	} else {
+		if (!quiet)
+			sim_fault(F_QUEUE_FULL);
+		was_full = true;
+		EV("claim", -1, 0, 0);
+	}
+}
+
+/* send a claimed, unsent message: the oldest (which 0), or any one chosen by the tape (which < 0:
+ * possibly out of claim order) */
+static void op_send_pending(int which)
+{
+	uint32_t cand[MAXDEPTH], nc = 0;
+	for (uint64_t g = n_recv; g < n_claim; g++)
+		if (!sent[g % depth])
+			cand[nc++] = g % depth;
+	if (nc) {
+		uint32_t pick = which < 0 ? sim_choose(nc) : 0;
+		uint32_t slot = cand[pick];
+		if (pick > 0)
+			sim_probe(P_SEND_REORDERED);
+		for (int r = 0; r < nroutes; r++)
+			messageq_send(rt[r].mq, rt[r].store + slot * msg_len);
+		sent[slot] = true;
+		EV("send", slot, 1, 0);
+	}
+}
+
+static void op_receive(void)
+{
+	void *res[2];
+	uint32_t slot = n_recv % depth;
+	bool expect = n_recv < n_claim && sent[slot];
+	if (n_recv < n_claim && !sent[slot])
+		sim_probe(P_RECEIVE_BLOCKED);
+	for (int r = 0; r < nroutes; r++)
+		res[r] = messageq_receive(rt[r].mq);
+	for (int r = 0; r < nroutes; r++) {
+		void *want = expect ? rt[r].store + slot * msg_len : NULL;
+		if (res[r] != want)
+			sim_fail(NULL, "RECEIVE", "receive returned %s%td, expected %s (oldest claimed slot %u is %s; route %d)",
+				 res[r] ? "offset " : "NULL ", res[r] ? (uint8_t *)res[r] - rt[r].store : 0,
+				 expect ? "that slot" : "NULL", slot,
+				 n_recv < n_claim ? (sent[slot] ? "sent" : "not yet sent") : "not claimed", r);
+		if (expect && !payload_ok(res[r], stamp[slot]))
+			sim_fail(NULL, "PAYLOAD", "message in slot %u does not hold what its claimer wrote", slot);
+	}
+	if (expect)
+		n_recv++;
+	EV("receive", expect ? (int)slot : -1, 0, 0);
+}
+
+static void op_release(void)
+{
+	if (n_rel < n_recv) {
+		uint32_t slot = n_rel % depth;
+		if (n_recv - n_rel > 1)
+			sim_probe(P_HELD_DELAYED);
+		for (int r = 0; r < nroutes; r++)
+			messageq_release(rt[r].mq, rt[r].store + slot * msg_len);
+		n_rel++;
+		EV("release", slot, 0, 0);
+	}
+}
+
+static void op_empty(void)
+{
+	bool expect = !(n_recv < n_claim && sent[n_recv % depth]);
+	for (int r = 0; r < nroutes; r++) {
+		bool e = messageq_empty(rt[r].mq);
+		if (e != expect)
+			sim_fail(NULL, "EMPTY", "messageq_empty returned %d but receive would %s (route %d)",
+				 e, expect ? "return nothing" : "return a message", r);
+	}
+	sim_probe(expect ? P_EMPTY_TRUE : P_EMPTY_FALSE);
+	EV("empty", expect, 0, 0);
 }
 
 static void run(void)
@@ -103,137 +236,81 @@ static void run(void)
 	nroutes = route == 2 ? 2 : 1;
 	if (route == 2) sim_probe(P_BOTH_ROUTES);
 	for (int r = 0; r < nroutes; r++) {
-		rt[r].store = sim_alloc(base_len);	/* exact size: redzones on both sides */
+		bool use_init = route == 0 || (route == 2 && r == 0);
+		/* the static initialiser is a macro: sometimes its arguments are expressions (a base
+		 * that is an offset into a pool of words, lengths that are sums and differences) */
+		uint32_t lead = !use_init && sim_chance(1, 3) ? 4 * (1 + sim_choose(3)) : 0;
+		uint8_t *block = sim_alloc(base_len + lead);	/* exact size: redzone behind (and in front when lead is 0) */
+		for (uint32_t i = 0; i < lead; i++)
+			block[i] = (uint8_t)(0x3c ^ i);
+		rt[r].store = block + lead;
+		rt[r].lead = lead;
 		for (uint32_t i = base_len > 8192 ? depth * msg_len : 0; i < base_len; i++)
 			rt[r].store[i] = (uint8_t)(0xc3 ^ i);
 		rt[r].mq = sim_alloc(sizeof(messageq_t));
-		bool use_init = route == 0 || (route == 2 && r == 0);
 		sim_budget(100000);
 		if (use_init) {
 			memset(rt[r].mq, 0x5a, sizeof(messageq_t));	/* init must not depend on prior contents */
 			messageq_init(rt[r].mq, rt[r].store, base_len, msg_len);
 		} else {
-			messageq_t q = MESSAGEQ_VAR_INIT(rt[r].store, base_len, msg_len);
-			memcpy(rt[r].mq, &q, sizeof(q));
+			if (lead) {
+				uint32_t *pool = (uint32_t *)block;
+				uint32_t words = lead / 4, total = base_len + lead, ml_a = msg_len - 1, ml_b = 1;
+				messageq_t q = MESSAGEQ_VAR_INIT(pool + words, total - lead, ml_a + ml_b);
+				memcpy(rt[r].mq, &q, sizeof(q));
+				sim_probe(P_INIT_EXPRESSIONS);
+			} else {
+				messageq_t q = MESSAGEQ_VAR_INIT(rt[r].store, base_len, msg_len);
+				memcpy(rt[r].mq, &q, sizeof(q));
+			}
 		}
 	}
 	n_claim = n_recv = n_rel = 0;
 	memset(sent, 0, sizeof(sent));
 	was_full = false;
-	uint32_t next_stamp = 1;
+	next_stamp = 1;
+	quiet = false;
 
+	uint32_t marathon_at = sim_chance(1, 300) ? sim_choose(nops) : UINT32_MAX;
 	for (uint32_t step = 0; step < nops && !sim_tape_done(); step++) {
 		sim_seg();
+		if (step == marathon_at) {
+			/* a very long-lived queue: tens of thousands of plain cycles, every one checked
+			 * against the model, so that 16-bit counters and tickets wrap */
+			static const uint32_t lens[] = { 300, 65530, 65536, 66000, 70000, 131100 };
+			uint32_t k = lens[sim_choose(6)] + sim_choose(8);
+			sim_ev("marathon", k, 0, 0);
+			quiet = true;
+			for (uint32_t i = 0; i < k; i++) {
+				sim_budget(100000);
+				op_send_pending(0);
+				op_claim(true);
+				op_receive();
+				op_release();
+				if ((i & 1023) == 0)
+					check_slack("a long run of plain cycles");
+			}
+			quiet = false;
+			sim_check_sanitizer();
+			sim_ev("marathon_end", n_claim, n_recv, n_rel);
+		}
 		uint32_t op = sim_choose(10);
 		/* 0-3 claim(+send), 4 send of a pending claim, 5-6 receive, 7-8 release, 9 empty */
 		if (bias == 1 && op >= 5 && op <= 8 && sim_choose(2))
 			op = 0;
 		if (bias == 2 && op <= 3 && sim_choose(2))
 			op = 5 + sim_choose(4);
-		void *res[2];
 		sim_budget(100000);
-		if (op <= 3) {
-			bool expect = n_claim - n_rel < depth;
-			uint32_t slot = n_claim % depth;
-			for (int r = 0; r < nroutes; r++)
-				res[r] = messageq_claim(rt[r].mq);
-			for (int r = 0; r < nroutes; r++) {
-				void *want = expect ? rt[r].store + slot * msg_len : NULL;
-				if (res[r] != want) {
-					if (!res[r])
-						sim_fail(NULL, "CLAIM:spurious_null", "claim returned NULL with %llu of %u buffers claimed and unreleased (route %d)",
-							 (unsigned long long)(n_claim - n_rel), depth, r);
-					if (!expect)
-						sim_fail(NULL, "CLAIM:overcommit", "claim returned offset %td although all %u buffers are claimed and unreleased (route %d)",
-							 (uint8_t *)res[r] - rt[r].store, depth, r);
-					sim_fail(NULL, "CLAIM:wrong_buffer", "claim %llu returned offset %td, expected slot %u at offset %u (depth %u, size %u, route %d)",
-						 (unsigned long long)n_claim, (uint8_t *)res[r] - rt[r].store, slot, slot * msg_len, depth, msg_len, r);
-				}
-			}
-			if (expect) {
-				if (was_full) {
-					sim_probe(P_FULL_THEN_RELEASE);
-					was_full = false;
-				}
-				if (n_claim >= depth)
-					sim_probe(P_WRAPPED);
-				if (n_claim == 257)
-					sim_probe(P_CLAIMS_OVER_256);
-				sent[slot] = false;
-				stamp[slot] = next_stamp++;
-				for (int r = 0; r < nroutes; r++)
-					fill_payload(res[r], stamp[slot]);
-				n_claim++;
-				sim_ev("claim", slot, 0, 0);
-				/* usually send at once; sometimes leave it pending for a reordered send */
-				if (sim_choose(4)) {
-					for (int r = 0; r < nroutes; r++)
-						messageq_send(rt[r].mq, res[r]);
-					sent[slot] = true;
-					sim_ev("send", slot, 0, 0);
-				}
-			} else {
-				sim_fault(F_QUEUE_FULL);
-				was_full = true;
-				sim_ev("claim", -1, 0, 0);
-			}
-		} else if (op == 4) {
-			/* send any claimed, unsent message (possibly out of claim order) */
-			uint32_t cand[MAXDEPTH], nc = 0;
-			for (uint64_t g = n_recv; g < n_claim; g++)
-				if (!sent[g % depth])
-					cand[nc++] = g % depth;
-			if (nc) {
-				uint32_t pick = sim_choose(nc);
-				uint32_t slot = cand[pick];
-				if (pick > 0)
-					sim_probe(P_SEND_REORDERED);
-				for (int r = 0; r < nroutes; r++)
-					messageq_send(rt[r].mq, rt[r].store + slot * msg_len);
-				sent[slot] = true;
-				sim_ev("send", slot, 1, 0);
-			}
-		} else if (op <= 6) {
-			uint32_t slot = n_recv % depth;
-			bool expect = n_recv < n_claim && sent[slot];
-			if (n_recv < n_claim && !sent[slot])
-				sim_probe(P_RECEIVE_BLOCKED);
-			for (int r = 0; r < nroutes; r++)
-				res[r] = messageq_receive(rt[r].mq);
-			for (int r = 0; r < nroutes; r++) {
-				void *want = expect ? rt[r].store + slot * msg_len : NULL;
-				if (res[r] != want)
-					sim_fail(NULL, "RECEIVE", "receive returned %s%td, expected %s (oldest claimed slot %u is %s; route %d)",
-						 res[r] ? "offset " : "NULL ", res[r] ? (uint8_t *)res[r] - rt[r].store : 0,
-						 expect ? "that slot" : "NULL", slot,
-						 n_recv < n_claim ? (sent[slot] ? "sent" : "not yet sent") : "not claimed", r);
-				if (expect && !payload_ok(res[r], stamp[slot]))
-					sim_fail(NULL, "PAYLOAD", "message in slot %u does not hold what its claimer wrote", slot);
-			}
-			if (expect)
-				n_recv++;
-			sim_ev("receive", expect ? (int)slot : -1, 0, 0);
-		} else if (op <= 8) {
-			if (n_rel < n_recv) {
-				uint32_t slot = n_rel % depth;
-				if (n_recv - n_rel > 1)
-					sim_probe(P_HELD_DELAYED);
-				for (int r = 0; r < nroutes; r++)
-					messageq_release(rt[r].mq, rt[r].store + slot * msg_len);
-				n_rel++;
-				sim_ev("release", slot, 0, 0);
-			}
-		} else {
-			bool expect = !(n_recv < n_claim && sent[n_recv % depth]);
-			for (int r = 0; r < nroutes; r++) {
-				bool e = messageq_empty(rt[r].mq);
-				if (e != expect)
-					sim_fail(NULL, "EMPTY", "messageq_empty returned %d but receive would %s (route %d)",
-						 e, expect ? "return nothing" : "return a message", r);
-			}
-			sim_probe(expect ? P_EMPTY_TRUE : P_EMPTY_FALSE);
-			sim_ev("empty", expect, 0, 0);
-		}
+		if (op <= 3)
+			op_claim(false);
+		else if (op == 4)
+			op_send_pending(-1);
+		else if (op <= 6)
+			op_receive();
+		else if (op <= 8)
+			op_release();
+		else
+			op_empty();
 		sim_ops(1);
 		sim_check_sanitizer();
 		check_slack("an operation");
@@ -247,9 +324,9 @@ const sim_harness_t sim_harness = {
 	.fault_names = fault_names,
 	.probe_names = probe_names,
 	.min_ops = 10,
-	.rule = "one case = one (depth 1..32, message size 1..40, slack) geometry, one construction route "
-		"(messageq_init, MESSAGEQ_VAR_INIT with run-time values, or both in lock step) and one "
-		"history of 10-120 (one run in six: 900-2400) claim / reordered send / receive / delayed release / empty operations "
+	.rule = "one case = one (depth 1..32, message size 1..40 or up to 65535, slack) geometry, one construction route "
+		"(messageq_init, MESSAGEQ_VAR_INIT with run-time values or expression arguments, or both in lock step) and one "
+		"history of 10-120 (one run in six: 900-2400; one in 300: a further 300-131100 plain cycles, each checked) claim / reordered send / receive / delayed release / empty operations "
 		"checked step by step against a bounded-FIFO model; non-trivial = at least 10 operations "
 		"and a refused claim or boundary probe occurred; distinct = distinct hash of the "
 		"geometry and operation/result event sequence",
